@@ -116,6 +116,43 @@ Proof.
   do 3 (split; [vm_compute; reflexivity|]). vm_compute. reflexivity.
 Qed.
 
+(* ---- open defects: the clause "every non-virtual volume is assigned to a composition that is
+   written" fails for decks the converter accepts although MCNP would not: a cell material
+   without M card, and a cell with a negative importance (converted because importance != 0,
+   but no composition because importance <= 0).  They show that the hypothesis s0_cells /
+   ws_cells (cell_named) of the positive theorems cannot be dropped ------------------------------ *)
+Definition w_nocard : wstate nat :=
+  mkW [(1, sph "2.0" 1)] [(1, mkVol [] [1] None [] false)] []
+      [(1, mkCell "7" (Some 7) (Some "-1.0") "-1.0" true true); (2, cell_void)]
+      mat_h [] [] false false false.
+
+Definition w_negimp : wstate nat :=
+  mkW [(1, sph "2.0" 1)] [(1, mkVol [] [1] None [] false)] []
+      [(1, cell_m1 false); (2, cell_void)]        (* importance -1: not "live" for constructCompositionT4 *)
+      mat_h [] [] false false false.
+
+Theorem composition_missing_refuted :
+  forall w, w = w_nocard \/ w = w_negimp ->
+  refs_ok (w_surfs w) (w_vols w) /\ sides_ok (w_vols w) /\
+  exists f g c,
+    write_file None w = Complete f /\ ~ wf_file f /\
+    f_geomcomp f = Some g /\ f_comps f = Some c /\
+    (map gc_name g = ["m7_-1.0"%string] \/ map gc_name g = ["m1_-1.0"%string]) /\
+    map cb_name (snd c) = ["m0"%string].
+Proof.
+  intros w [-> | ->].
+  - split; [apply refs_okb_sound; vm_compute; reflexivity|].
+    split; [apply sides_okb_sound; vm_compute; reflexivity|].
+    eexists. eexists. eexists. split; [vm_compute; reflexivity|].
+    split; [apply wf_fileb_false; vm_compute; reflexivity|].
+    do 2 (split; [vm_compute; reflexivity|]). split; [left|]; vm_compute; reflexivity.
+  - split; [apply refs_okb_sound; vm_compute; reflexivity|].
+    split; [apply sides_okb_sound; vm_compute; reflexivity|].
+    eexists. eexists. eexists. split; [vm_compute; reflexivity|].
+    split; [apply wf_fileb_false; vm_compute; reflexivity|].
+    do 2 (split; [vm_compute; reflexivity|]). split; [right|]; vm_compute; reflexivity.
+Qed.
+
 (* ---- flagged surfaces after the repair of writeT4BoundCond: surface 5 is not used by any
    volume (dropped), surface 3 was merged into surface 2 by de-duplication (listed as 2),
    surface 2 itself is flagged with the same kind (listed once) ------------------------------ *)
